@@ -831,7 +831,7 @@ class Interp:
         return self.loop_counter
 
     def bind_loop_target(self, target, it: T, lid: int, frame: Frame,
-                         live: T, stmt):
+                         live: T, stmt, through_map: bool = False):
         for tnode, val in self.loop_bindings(target, it, lid):
             self.assign(tnode, val, frame, live, stmt)
 
@@ -937,7 +937,8 @@ class Interp:
                     self.attrs[key] = T("loopvar", f"{bn}.{an}", lid,
                                         attr_inits[key])
         self.emit("loop", s, live, frame, iter=it, lid=lid)
-        self.bind_loop_target(s.target, it, lid, frame, live, s)
+        self.bind_loop_target(s.target, it, lid, frame, live, s,
+                              through_map=True)
         saved = self.loops
         self.loops = self.loops + (lid,)
         body_live = tm.mk_and(live, T("iter", lid))
